@@ -444,9 +444,9 @@ Section Define.
     _ <- check (negb (forallb (fun ns => forallb (fun n => alist_has all n) ns) (s_keys_of s))) TypeError ;;
     Ok k.
 
-  (* AbstractStructure.__init__: direct children cannot be instantiated *)
+  (* AbstractStructure.__init__: neither AbstractStructure itself nor its direct children can be instantiated *)
   Definition instantiable (k : klass) : res unit :=
-    check (str_in n_Abstract (k_bases k)) TypeError.
+    check (pystr_eqb (k_name k) n_Abstract || str_in n_Abstract (k_bases k)) TypeError.
 
   (* FieldMeta.__new__ for a user-defined Field class: fenv gives the MRO of the field classes in
      scope (names); ImmutableField classes cannot be extended *)
